@@ -77,7 +77,10 @@ func chainFor(kind string) *pki.Chain {
 // look-alike "ALG" naming the algorithm the leaf key dictates; "case-first:X":
 // the look-alike comes first.
 var jwsCaseDecl = []string{"case-last:PS256", "case-last:PS384", "case-last:PS512", "case-last:ES256", "case-last:ES384", "case-last:ES512", "case-last:RS256", "case-last:HS256",
-	"case-first:PS384", "case-first:ES384", "case-last-Alg:PS384", "case-last-aLg:ES512"}
+	"case-first:PS384", "case-first:ES384", "case-last-Alg:PS384", "case-last-aLg:ES512",
+	// exact duplicates of "alg": "dupx-last:X" = the key's own algorithm first, X last (X is what
+	// the signature is valid for and what every JSON decoder that lets the last one win reads)
+	"dupx-last:PS256", "dupx-last:PS384", "dupx-last:PS512", "dupx-last:ES256", "dupx-last:ES384", "dupx-last:ES512", "dupx-first:PS384", "dupx-first:ES384"}
 
 var jwsDecl = []string{"PS256", "PS384", "PS512", "ES256", "ES384", "ES512", "RS256", "RS384", "RS512", "HS256", "HS384", "HS512", "EdDSA", "ES256K", "none", "empty", "absent", "ps256", "PS256 "}
 var coseDecl = []string{"cose:-37", "cose:-38", "cose:-39", "cose:-7", "cose:-35", "cose:-36", "cose:-257", "cose:-258", "cose:-259", "cose:-8", "cose:-47", "cose:4", "cose:5", "cose:6", "cose:7", "cose:0", "cose:-65535", "tstr:PS256", "tstr:ES256", "absent"}
@@ -89,7 +92,7 @@ func build(c Cell) (env []byte, validForDeclared bool, err error) {
 	ch := chainFor(c.Kind)
 	var declared *envcodec.AlgInfo
 	switch {
-	case c.MT == sims.JWS && strings.HasPrefix(c.Decl, "case-"):
+	case c.MT == sims.JWS && (strings.HasPrefix(c.Decl, "case-") || strings.HasPrefix(c.Decl, "dupx-")):
 		_, x, _ := strings.Cut(c.Decl, ":")
 		declared = envcodec.AlgByName(x)
 	case c.MT == sims.JWS:
@@ -117,6 +120,19 @@ func build(c Cell) (env []byte, validForDeclared bool, err error) {
 		prot := sims.ConformantJWS(c.Scheme, "x", sims.SignTime, sims.SignTime.AddDate(1, 0, 0))
 		var out []envcodec.Member
 		for _, m := range prot {
+			if m.Name == envcodec.JAlg && strings.HasPrefix(c.Decl, "dupx-") {
+				kind, x, _ := strings.Cut(c.Decl, ":")
+				own := "PS256"
+				if row, ok := table[c.Kind]; ok {
+					own = row.alg
+				}
+				a, b := envcodec.Member{Name: envcodec.JAlg, Raw: envcodec.JStr(own)}, envcodec.Member{Name: envcodec.JAlg, Raw: envcodec.JStr(x)}
+				if kind == "dupx-first" {
+					a, b = b, a
+				}
+				out = append(out, a, b)
+				continue
+			}
 			if m.Name == envcodec.JAlg && strings.HasPrefix(c.Decl, "case-") {
 				kind, x, _ := strings.Cut(c.Decl, ":")
 				look := "ALG"
@@ -178,8 +194,8 @@ func expectAccept(c Cell) bool {
 		return false
 	}
 	if c.MT == sims.JWS {
-		if strings.HasPrefix(c.Decl, "case-") {
-			// the algorithm in the header named exactly "alg" is the declared one
+		if strings.HasPrefix(c.Decl, "case-") || strings.HasPrefix(c.Decl, "dupx-") {
+			// the algorithm the signature is made with must be the key's own
 			_, x, _ := strings.Cut(c.Decl, ":")
 			return x == row.alg
 		}
@@ -209,9 +225,16 @@ func judgeCell(r *core.Run, c Cell) {
 		r.Count("panicked", 1)
 		return
 	}
+	if strings.HasPrefix(c.Decl, "dupx-first") && !validForDeclared {
+		// the key cannot sign for X, so the signature is the key's own and the
+		// LAST "alg" names the key's own algorithm: an ordinary valid envelope
+		// with a duplicate member, not a cell of this table
+		r.Count("dup-first-not-producible-skipped", 1)
+		return
+	}
 	want := expectAccept(c)
 	got := verr == nil
-	if strings.HasPrefix(c.Decl, "case-") && want && !got {
+	if (strings.HasPrefix(c.Decl, "case-") || strings.HasPrefix(c.Decl, "dupx-")) && want && !got {
 		// an approved pairing that additionally carries a look-alike "ALG"
 		// header: the statement does not demand acceptance
 		r.Count("lookalike-on-table-rejected", 1)
@@ -356,6 +379,54 @@ func signCells(r *core.Run) {
 					r.Count("remote-sign-rejected", 1)
 				}
 				r.Nontrivial(desc)
+			}
+		}
+	}
+	// remote signers whose KeySpec() answer changes between calls within one Sign:
+	// whatever is produced must declare the algorithm of the leaf key
+	for _, mt := range []string{sims.JWS, sims.COSE} {
+		for _, lk := range pki.SupportedKinds {
+			for _, ok := range pki.SupportedKinds {
+				if ok == lk || (lk[:1] != ok[:1]) {
+					continue // same key family: the signer can really sign for the other spec
+				}
+				for _, seq := range [][]string{{lk, ok}, {lk, lk, ok}, {ok, lk}, {lk, ok, lk}} {
+					r.Eval(1)
+					ch := chainFor(lk)
+					rs := &sims.RemoteSigner{Key: ch.Keys[0], Chain: ch.Certs}
+					for _, k := range seq {
+						rs.SpecSeq = append(rs.SpecSeq, sims.KeySpecOf(k))
+					}
+					env, _ := signature.NewEnvelope(mt)
+					var raw []byte
+					var err error
+					desc := fmt.Sprintf("Sign(%s, remote signer on a %s leaf whose KeySpec() answers %v in turn)", mtName(mt), lk, seq)
+					if p := core.Guard(func() { raw, err = env.Sign(sims.BaseRequest(mt, rs, signature.SigningSchemeX509)) }); p != nil {
+						r.Violation("remote-sign-panic", desc+" panicked: "+p.Value, desc)
+						continue
+					}
+					r.Nontrivial(desc)
+					if err != nil || raw == nil {
+						r.Count("changing-keyspec-rejected", 1)
+						continue
+					}
+					declared := ""
+					if mt == sims.JWS {
+						d, _ := envcodec.DecodeJWS(raw)
+						declared, _ = d.HeaderString(envcodec.JAlg)
+					} else {
+						d, _ := envcodec.DecodeCOSE(raw)
+						id, _ := d.HeaderInt(envcodec.CAlg)
+						if a := envcodec.AlgByCOSE(id); a != nil {
+							declared = a.Name
+						}
+					}
+					if declared != table[lk].alg {
+						r.Violation("changing-keyspec-envelope-declares-foreign-algorithm:"+mtName(mt), fmt.Sprintf("%s produced an envelope declaring %s on a %s leaf", desc, declared, lk), desc)
+						continue
+					}
+					r.Count("changing-keyspec-accepted-consistent", 1)
+				}
 			}
 		}
 	}
